@@ -12,6 +12,7 @@ import time
 
 from vf import spec as S, observe as O, bootstrap as B, drivers as D
 from vf import materialize as MZ, engine_a as EA, engine_b as EB
+from vf import mutlang as ML, refstate as R
 from vf import findings, explore
 from vf.spec import F, M, A, P
 from vf.checks import common, c01
@@ -289,6 +290,75 @@ def run_migrations_app_case(purge, driver, stats, add):
                 {'required': str(again)})
 
 
+def run_retire_case(driver, stats, add):
+    """The usual way to retire an app: an evolution of a remaining app
+    drops its ForeignKey to the app, the app leaves INSTALLED_APPS, and one
+    `evolve --purge` run does both."""
+    stats['cases'] += 1
+    va0 = A('va', [M('Item', [F('name', 'Char', max_length=20),
+                              F('ref', 'FK', to='vold.Old', null=True)])])
+    vold = A('vold', [M('Old', [F('x', 'Char', max_length=20)])])
+    hist = EB.History(P(va0, vold), [('va', 'e1', [['DeleteField', 'Item',
+                                                    'ref']])])
+    hist.install(0)
+    B.fresh_db('default')
+    B.reset_globals()
+    r = D.d2_all()
+    replay = {'scenario': 'retire-app', 'driver': driver}
+    if not r.ok:
+        add('C15|retire-app|setup-fails|%s' % r.exc_type, replay,
+            {'error': str(r.exc)[:200]})
+        return
+    from vf import rows as RW
+    RW.populate(hist.specs[0], 'R2', 'default')
+    before_ids = stored_app_ids()
+    # code version 1 without the retired app
+    final = P(S.clone(hist.specs[1]['apps'][0]))
+    MZ.install(final, evolutions={'va': {'SEQUENCE': ['e1'], 'modules': {
+        'e1': {'MUTATIONS': [ML.to_real(['DeleteField', 'Item', 'ref'])]}}}})
+    B.reset_globals()
+    if driver == 'D3':
+        res = D.d3(purge=True)
+    else:
+        from django_evolution.evolve import Evolver
+        res = D.RunResult()
+        try:
+            ev = Evolver()
+            ev.queue_evolve_all_apps()
+            ev.queue_purge_old_apps()
+            ev.evolve()
+            res.ok = True
+        except Exception as e:
+            res.exc, res.exc_type = e, type(e).__name__
+            D._abort_transactions('default')
+    stats['runs'] += 1
+    if not res.ok:
+        add('C15|retire-app|run-fails|%s|%s' % (res.exc_type, driver),
+            replay, {'error': str(res.exc)[:300]})
+        return
+    tables = set(O.list_tables('default'))
+    if 'vold_old' in tables:
+        add('C15|retire-app|owned-tables-not-dropped|%s' % driver, replay,
+            {})
+    want = R.fresh(final)['schema']
+    MZ.install(final, evolutions={'va': {'SEQUENCE': ['e1'], 'modules': {
+        'e1': {'MUTATIONS': [ML.to_real(['DeleteField', 'Item', 'ref'])]}}}})
+    got = {t: d for t, d in O.schema_dump('default', skip=SKIP).items()
+           if t.startswith('va_')}
+    if got != want:
+        add('C15|retire-app|remaining-app-schema-wrong|%s' % driver, replay,
+            {'got': str(got)[:300]})
+    want_ids = sorted(set(before_ids) - {'vold'})
+    if stored_app_ids() != want_ids:
+        add('C15|retire-app|stored-signature-apps-wrong|%s' % driver,
+            replay, {'got': stored_app_ids()})
+    rec = sorted((a, l) for (a, l, _v) in (
+        O.bookkeeping_dump('default')['evolutions'] or []) if a == 'va')
+    if rec != [('va', 'e1')]:
+        add('C15|retire-app|evolution-not-recorded|%s' % driver, replay,
+            {'recorded': rec})
+
+
 def judge_delete(node, step, tr):
     out = []
     for fp, detail in c01.judge(node, step, tr):
@@ -317,6 +387,10 @@ def work(task):
             for driver in ('D3', 'D2'):
                 run_emptied_case(purge, driver, stats, add)
         stats['samples'].append({'scenario': 'emptied-app'})
+    elif kind == 'retire-app':
+        for driver in ('D3', 'D2'):
+            run_retire_case(driver, stats, add)
+        stats['samples'].append({'scenario': 'retire-app'})
     elif kind == 'migrations-app':
         for purge in (True, False):
             for driver in ('D3', 'D2'):
@@ -356,6 +430,7 @@ def run(tier, seed, confirm=True):
                       2 if tier == 'quick' else 3))
     tasks.append(('emptied',))
     tasks.append(('migrations-app',))
+    tasks.append(('retire-app',))
     total = {}
     coll = findings.Collector(PROP)
     for stats, viol in explore.run_tasks('vf.checks.c15.work', tasks,
@@ -397,6 +472,8 @@ def replay(path):
     stats = {'cases': 0, 'runs': 0}
     if r.get('scenario') == 'emptied-app':
         run_emptied_case(r['purge'], r['driver'], stats, add)
+    elif r.get('scenario') == 'retire-app':
+        run_retire_case(r['driver'], stats, add)
     elif r.get('scenario') == 'migrations-app':
         run_migrations_app_case(r['purge'], r['driver'], stats, add)
     elif r.get('kind') == 'delete' or 'steps' in r:
